@@ -244,3 +244,178 @@ func VerifH_C17_structlit() {
 		vp.Assert("C02.structlit.node", ok && len(lit.Elts) == nel)
 	}
 }
+
+// every stack operation on every kind of operand (well-typed or not): errors are fine, faults are not
+func verifC17Operand(cb *CodeBuilder, pkg *Package, name string) {
+	tint := types.Typ[types.Int]
+	st := types.NewStruct([]*types.Var{types.NewField(token.NoPos, pkg.Types, "X", tint, false)}, nil)
+	switch vp.Choose(name, 15) {
+	case 0:
+		cb.Val(verifNonConst("i", tint))
+	case 1:
+		cb.Val(verifNonConst("s", types.Typ[types.String]))
+	case 2:
+		cb.Val(verifNonConst("sl", types.NewSlice(tint)))
+	case 3:
+		cb.Val(verifNonConst("m", types.NewMap(types.Typ[types.String], tint)))
+	case 4:
+		cb.Val(verifNonConst("p", types.NewPointer(st)))
+	case 5:
+		cb.Val(verifNonConst("st", st))
+	case 6:
+		cb.Val(verifNonConst("fn", types.NewSignatureType(nil, nil, nil, nil, types.NewTuple(types.NewVar(token.NoPos, pkg.Types, "", tint), types.NewVar(token.NoPos, pkg.Types, "", TyError)), false)))
+	case 7:
+		cb.Val(verifNonConst("ch", types.NewChan(types.RecvOnly, tint)))
+	case 8:
+		cb.Val(verifNonConst("e", TyEmptyInterface))
+	case 9:
+		cb.Val(nil)
+	case 10:
+		cb.Val(5)
+	case 11:
+		cb.Typ(tint)
+	case 12: // a multi-value call result
+		cb.Val(verifNonConst("fn", types.NewSignatureType(nil, nil, nil, nil, types.NewTuple(types.NewVar(token.NoPos, pkg.Types, "", tint), types.NewVar(token.NoPos, pkg.Types, "", TyError)), false))).Call(0)
+	case 13:
+		cb.Val(verifNonConst("arr", types.NewPointer(types.NewArray(tint, 3))))
+	case 14:
+		cb.Val(1.5)
+	}
+}
+
+var verifC17OpNames = []string{"slice", "slice3", "index", "index2", "indexref", "star", "elem", "elemref", "assert", "assert2", "send", "incdec", "assignop", "assign", "unary-", "unary!", "unary^", "unary<-", "unary&", "binary+", "binary<<", "binary==", "binary&&", "member", "memberref", "call1", "return1", "returnerr", "defer", "go", "if", "for", "switchcase", "range", "typeswitch", "maplit", "slicelit", "structlit", "endstmt"}
+
+func VerifH_C17_ops() {
+	pkg := verifNewPkg()
+	tint := types.Typ[types.Int]
+	res := types.NewTuple(types.NewParam(token.NoPos, pkg.Types, "", tint))
+	withRes := vp.Choose("results", 2) == 1
+	var cb *CodeBuilder
+	if withRes {
+		cb = pkg.NewFunc(nil, "f", nil, res, false).BodyStart(pkg)
+	} else {
+		cb = pkg.NewFunc(nil, "f", nil, nil, false).BodyStart(pkg)
+	}
+	op := verifC17OpNames[vp.Choose("op", len(verifC17OpNames))]
+	verifNoFault("ops", func() {
+		switch op {
+		case "if":
+			cb.If()
+			verifC17Operand(cb, pkg, "a")
+			cb.Then().End()
+			return
+		case "for":
+			cb.For()
+			verifC17Operand(cb, pkg, "a")
+			cb.Then().End()
+			return
+		case "switchcase":
+			cb.Switch()
+			verifC17Operand(cb, pkg, "a")
+			cb.Then().Case()
+			verifC17Operand(cb, pkg, "b")
+			cb.Then().End().End()
+			return
+		case "range":
+			cb.ForRange("k", "v")
+			verifC17Operand(cb, pkg, "a")
+			cb.RangeAssignThen(token.NoPos).End()
+			return
+		case "typeswitch":
+			cb.TypeSwitch("t")
+			verifC17Operand(cb, pkg, "a")
+			cb.TypeAssertThen().TypeCase()
+			verifC17Operand(cb, pkg, "b")
+			cb.Then().End().End()
+			return
+		}
+		verifC17Operand(cb, pkg, "a")
+		switch op {
+		case "slice":
+			cb.None()
+			verifC17Operand(cb, pkg, "b")
+			cb.Slice(false)
+		case "slice3":
+			cb.None()
+			verifC17Operand(cb, pkg, "b")
+			cb.Val(2).Slice(true)
+		case "index":
+			verifC17Operand(cb, pkg, "b")
+			cb.Index(1, 0)
+		case "index2":
+			verifC17Operand(cb, pkg, "b")
+			cb.Index(1, 2)
+		case "indexref":
+			verifC17Operand(cb, pkg, "b")
+			cb.IndexRef(1)
+		case "star":
+			cb.Star()
+		case "elem":
+			cb.Elem()
+		case "elemref":
+			cb.ElemRef()
+		case "assert":
+			cb.TypeAssert(tint, 0)
+		case "assert2":
+			cb.TypeAssert(TyError, 2)
+		case "send":
+			verifC17Operand(cb, pkg, "b")
+			cb.Send()
+		case "incdec":
+			cb.IncDec(token.INC)
+		case "assignop":
+			verifC17Operand(cb, pkg, "b")
+			cb.AssignOp(token.ADD_ASSIGN)
+		case "assign":
+			verifC17Operand(cb, pkg, "b")
+			cb.Assign(1)
+		case "unary-":
+			cb.UnaryOp(token.SUB)
+		case "unary!":
+			cb.UnaryOp(token.NOT)
+		case "unary^":
+			cb.UnaryOp(token.XOR)
+		case "unary<-":
+			cb.UnaryOpEx(token.ARROW, 2)
+		case "unary&":
+			cb.UnaryOp(token.AND)
+		case "binary+":
+			verifC17Operand(cb, pkg, "b")
+			cb.BinaryOp(token.ADD)
+		case "binary<<":
+			verifC17Operand(cb, pkg, "b")
+			cb.BinaryOp(token.SHL)
+		case "binary==":
+			verifC17Operand(cb, pkg, "b")
+			cb.BinaryOp(token.EQL)
+		case "binary&&":
+			verifC17Operand(cb, pkg, "b")
+			cb.BinaryOp(token.LAND)
+		case "member":
+			cb.MemberVal("X", 0)
+		case "memberref":
+			cb.MemberRef("X")
+		case "call1":
+			verifC17Operand(cb, pkg, "b")
+			cb.Call(1)
+		case "return1":
+			cb.Return(1)
+		case "returnerr":
+			cb.ReturnErr(false)
+		case "defer":
+			cb.Defer()
+		case "go":
+			cb.Go()
+		case "maplit":
+			verifC17Operand(cb, pkg, "b")
+			cb.MapLit(nil, 2)
+		case "slicelit":
+			verifC17Operand(cb, pkg, "b")
+			cb.SliceLit(nil, 2)
+		case "structlit":
+			cb.StructLit(types.NewStruct([]*types.Var{types.NewField(token.NoPos, pkg.Types, "X", tint, false)}, nil), 1, false)
+		case "endstmt":
+			cb.EndStmt()
+		}
+	})
+}
